@@ -695,7 +695,7 @@ static void op_new (char **w, int n)
       "stun-pacing-timer", atoi (kv (w, n, "ta", "20")),
       "stun-initial-timeout", atoi (kv (w, n, "rto", "500")),
       "stun-max-retransmissions", atoi (kv (w, n, "rc", "3")),
-      "ice-tcp", atoi (kv (w, n, "icetcp", "0")), "ice-udp", TRUE,
+      "ice-tcp", atoi (kv (w, n, "icetcp", "0")), "ice-udp", atoi (kv (w, n, "iceudp", "1")),
       "keepalive-conncheck", atoi (kv (w, n, "keepalive", "0")),
       "max-connectivity-checks", atoi (kv (w, n, "maxchecks", "100")), NULL);
   if (kv (w, n, "stunsrv", NULL)) {
@@ -818,13 +818,20 @@ int main (void)
       printf ("ok t=%llu\n", (unsigned long long) now_ms ());
     }
     else if (!strcmp (w[0], "send") && n == 5 && (g = find_ag (w[1]))) {
-      uint8_t *b; long l = parse_hex (w[4], &b); GError *e = NULL; gssize r;
-      GOutputVector v = { b, l }; NiceOutputMessage m = { &v, 1 };
+      /* the message may be split over several exactly-sized buffers: <hex>,<hex>,... ("-" = empty buffer) */
+      GOutputVector v[16]; int nv = 0, k; GError *e = NULL; gssize r; char *tok, *save = NULL;
+      NiceOutputMessage m;
+      for (tok = strtok_r (w[4], ",", &save); tok && nv < 16; tok = strtok_r (NULL, ",", &save)) {
+        uint8_t *b; long l = parse_hex (tok, &b);
+        if (l < 0) break;
+        v[nv].buffer = b; v[nv].size = l; nv++;
+      }
+      m.buffers = v; m.n_buffers = nv;
       r = nice_agent_send_messages_nonblocking (g->agent, atoi (w[2]), atoi (w[3]), &m, 1, NULL, &e);
       total_dispatches += iterate_ready ();
       if (e) { printf ("ok ret %zd err %s-%d\n", r, g_quark_to_string (e->domain), e->code); g_error_free (e); }
       else printf ("ok ret %zd\n", r);
-      free (b);
+      for (k = 0; k < nv; k++) free ((void *) v[k].buffer);
     }
     else if (!strcmp (w[0], "restart") && n == 2 && (g = find_ag (w[1]))) { printf ("ok ret %d\n", nice_agent_restart (g->agent)); total_dispatches += iterate_ready (); }
     else if (!strcmp (w[0], "restartstream") && n == 3 && (g = find_ag (w[1]))) { printf ("ok ret %d\n", nice_agent_restart_stream (g->agent, atoi (w[2]))); total_dispatches += iterate_ready (); }
